@@ -444,7 +444,7 @@ func init() {
 	qd.Alphabet = []string{"SCHEDULE", "RELEASE", "CONFIG", "QUOTA_PREEMPT"}
 	mc.Register(&mc.ScenarioDef{Scn: qd, Monitors: []mc.Monitor{monC16()}, Prepare: c16Prepare})
 	registerCheck(&CheckDef{Prop: "C16", Level: "model_checking", Technique: tE1,
-		Quick:       []Run{{Scenario: "reload-1app", Depth: 4, MapModes: []int{1}}, {Scenario: "reload-3apps", Depth: 3, MapModes: []int{1}}, {Scenario: "reload-quota-delay", Depth: 4, MapModes: []int{1}}},
+		Quick:       []Run{{Scenario: "reload-1app", Depth: 5, MapModes: []int{1}}, {Scenario: "reload-3apps", Depth: 4, MapModes: []int{1}}, {Scenario: "reload-quota-delay", Depth: 5, MapModes: []int{1}}},
 		Thorough:    []Run{{Scenario: "reload-1app", Depth: 7, MapModes: []int{1, 2}}, {Scenario: "reload-3apps", Depth: 6, MapModes: []int{1, 2}}, {Scenario: "reload-quota-delay", Depth: 7, MapModes: []int{1}}},
 		QuickBudget: 150 * time.Second, ThoroughBudget: 12 * time.Minute,
 		Assumptions: []string{"static queue fields are compared with a fresh scheduler loaded from the same document (differential oracle); the leaf/parent flag of a converted queue is not compared", "single partition"}})
